@@ -33,6 +33,8 @@ def compare(out, obs):
     exp_text = sorted([list(p[0]), list(p[1])] for p in out['text'])
     if sorted(obs['text']) != exp_text:
         return 'keywords'
+    if 'an' in out and sorted(obs.get('analysis', [])) != sorted([list(p[0]), list(p[1])] for p in out['an']):
+        return 'analysis-keywords'
     if obs.get('fcsdata') not in (None, 'same'):
         return 'fcsdata-' + obs['fcsdata']
     return None
@@ -222,8 +224,8 @@ def main(chk, replay=None):
             print('observed now:', json.dumps(fcsproj.load(p), default=core.jdefault)[:1500])
         print('expected:', json.dumps(replay['expected'])[:1500])
         return
-    slices = ['int-quick', 'unsupported', 'patterns'] if chk.quick else \
-        ['int-full', 'int-wide', 'int-odd', 'float', 'unsupported', 'patterns']
+    slices = ['int-quick', 'unsupported', 'patterns', 'analysis'] if chk.quick else \
+        ['int-full', 'int-wide', 'int-odd', 'float', 'unsupported', 'patterns', 'analysis']
     if chk.quick:
         slices.append('float')
     mc_reader(chk)
